@@ -525,7 +525,7 @@ def main():
     outs = pipe_common.run_corpus(ck, n_nets, want={"extra": pipeline_extra}, corpus_first=False)
     # families that aim at the branches of high_level_command_to_npu_op.py (operand swap, stand-alone scale tensors, TRANSPOSE,
     # tile padding, clamp behind a forced zero point / overridden scale); their streams are judged by (b) and (c) as well
-    outs += pipe_common.run_corpus(ck, 600 if ck.thorough else 50, profiles=["hl2npu:"], want={"extra": pipeline_extra}, corpus_first=False)
+    outs += pipe_common.run_corpus(ck, 660 if ck.thorough else 55, profiles=["hl2npu:"], want={"extra": pipeline_extra}, corpus_first=False)
     plines, pown = [], []
     for o in outs:
         ck.count("net_status_" + str(o.get("status", "harness-exception")))
